@@ -17,7 +17,18 @@ package serverinterceptors
 //     => out=…
 //   dl srv <parentMs|none> <dfltMs> <method> <m:ms>*     deadline seen by the handler
 //   dl cli <parentMs|none> <dfltMs> <err> <o|t:ms>*      deadline seen by the invoker, and the error passed through
-//     => dl=<none|parent|window|early|late> [err=<e>]
+//     => dl=<none|parent|window@ms|other> [err=<e>]
+//   tsel <dfltMs> <method> <kind> <at> <work> <m:ms>*    like `sel srv`, through an interceptor with a per-method table;
+//       kind=timer: the METHOD's own (3ms) timeout must end the call, the other kinds need a long (1h) one
+//     => out=…
+//   fxt <fire|hold> <timeoutMs> <work> <parentMs|none>*  fx.DoWithTimeout under real parent deadlines (WithContext options)
+//       fire: min(last parent's deadline, now+timeout) is (almost) now: the call must come back by itself with
+//       DeadlineExceeded although the work is gated; hold: it must not
+//     => out=…
+//
+// Sections with `inst=shared` keep ONE interceptor per configuration (default timeout + method table) for all their
+// `dl srv` / `tsel` lines: a sequence of calls of different methods runs through the same closure, so state that the
+// interceptor keeps between calls (captured variables, the method map) is exercised.  `inst=fresh`: one per line.
 
 import (
 	"context"
@@ -165,6 +176,11 @@ func (w c04Work) run() (any, error) {
 
 // c04Call starts the wrapper around gated work; returns the channel of its outcome and the gate.
 func c04Call(wrapper string, timeout time.Duration, parents []*c04Ctx, work c04Work, gated bool, never chan struct{}) (chan string, chan struct{}) {
+	return c04CallIc(wrapper, timeout, parents, work, gated, never, nil, "/svc/M1")
+}
+
+func c04CallIc(wrapper string, timeout time.Duration, parents []*c04Ctx, work c04Work, gated bool, never chan struct{},
+	ic grpc.UnaryServerInterceptor, method string) (chan string, chan struct{}) {
 	gate := make(chan struct{})
 	out := make(chan string, 1)
 	body := func() (any, error) {
@@ -185,8 +201,10 @@ func c04Call(wrapper string, timeout time.Duration, parents []*c04Ctx, work c04W
 		}()
 		switch wrapper {
 		case "srv":
-			ic := UnaryTimeoutInterceptor(timeout)
-			resp, err := ic(parents[0], "req", &grpc.UnaryServerInfo{FullMethod: "/svc/M1"}, func(ctx context.Context, req any) (any, error) {
+			if ic == nil {
+				ic = UnaryTimeoutInterceptor(timeout)
+			}
+			resp, err := ic(parents[0], "req", &grpc.UnaryServerInfo{FullMethod: method}, func(ctx context.Context, req any) (any, error) {
 				return body()
 			})
 			out <- c04Out("srv", resp, err)
@@ -231,6 +249,47 @@ func c04StuckBound() time.Duration {
 }
 
 func c04Sel(op []string, never chan struct{}) string {
+	return c04SelIc(op, never, nil, "/svc/M1")
+}
+
+// c04Insts: the interceptors of a section with inst=shared, by configuration
+type c04Insts struct {
+	shared bool
+	srv    map[string]grpc.UnaryServerInterceptor
+}
+
+func c04MethodTable(toks []string) []MethodTimeoutConf {
+	var mts []MethodTimeoutConf
+	for _, m := range toks {
+		p := strings.Split(m, ":")
+		mts = append(mts, MethodTimeoutConf{FullMethod: c04Method(verifh.Atoi(p[0])), Timeout: time.Duration(verifh.Atoi(p[1])) * time.Millisecond})
+	}
+	return mts
+}
+
+func (in *c04Insts) srvIc(dfltMs string, mts []string) grpc.UnaryServerInterceptor {
+	mk := func() grpc.UnaryServerInterceptor {
+		return UnaryTimeoutInterceptor(time.Duration(verifh.Atoi(dfltMs))*time.Millisecond, c04MethodTable(mts)...)
+	}
+	if in == nil || !in.shared {
+		return mk()
+	}
+	key := dfltMs + "|" + strings.Join(mts, " ")
+	if ic, ok := in.srv[key]; ok {
+		return ic
+	}
+	ic := mk()
+	in.srv[key] = ic
+	return ic
+}
+
+// tsel <dfltMs> <method> <kind> <at> <work> <m:ms>*
+func c04TSel(op []string, never chan struct{}, in *c04Insts) string {
+	ic := in.srvIc(op[1], op[6:])
+	return c04SelIc([]string{"sel", "srv", op[3], op[4], op[5]}, never, ic, c04Method(verifh.Atoi(op[2])))
+}
+
+func c04SelIc(op []string, never chan struct{}, ic grpc.UnaryServerInterceptor, method string) string {
 	wrapper, kind, at, work := op[1], op[2], op[3], c04ParseWork(op[4])
 	nopts, fireIdx := 1, 0
 	if wrapper == "fx" && len(op) >= 7 {
@@ -244,7 +303,7 @@ func c04Sel(op []string, never chan struct{}) string {
 	if kind == "timer" {
 		timeout = 3 * time.Millisecond
 	}
-	out, gate := c04Call(wrapper, timeout, parents, work, true, never)
+	out, gate := c04CallIc(wrapper, timeout, parents, work, true, never, ic, method)
 	fire := func() {
 		if fireIdx < len(parents) {
 			parents[fireIdx].fire(kind)
@@ -280,6 +339,55 @@ func c04Sel(op []string, never chan struct{}) string {
 	o, _ := c04Wait(out, c04StuckBound(), "stuck")
 	fire()
 	return "out=" + o
+}
+
+// fxt <fire|hold> <timeoutMs> <work> <parentMs|none>*
+func c04Fxt(op []string, never chan struct{}) string {
+	expect, timeout, work := op[1], time.Duration(verifh.Atoi(op[2]))*time.Millisecond, c04ParseWork(op[3])
+	t0 := time.Now()
+	var opts []fx.DoOption
+	var cancels []context.CancelFunc
+	for _, p := range op[4:] {
+		ctx, _, cancel := c04Parent(p, t0)
+		cancels = append(cancels, cancel)
+		opts = append(opts, fx.WithContext(ctx))
+	}
+	defer func() {
+		for _, c := range cancels {
+			c()
+		}
+	}()
+	gate := make(chan struct{})
+	out := make(chan string, 1)
+	go func() {
+		defer func() {
+			if p := recover(); p != nil {
+				out <- c04PanicTok(p)
+			}
+		}()
+		err := fx.DoWithTimeout(func() error {
+			<-gate
+			if work.kind == "never" {
+				<-never
+				return nil
+			}
+			_, err := work.run()
+			return err
+		}, timeout, opts...)
+		out <- c04Out("fx", nil, err)
+	}()
+	if expect == "fire" {
+		o, _ := c04Wait(out, c04StuckBound(), "stuck")
+		close(gate)
+		return "out=" + o
+	}
+	o, got := c04Wait(out, 15*time.Millisecond, "blocked")
+	close(gate)
+	if got || work.kind == "never" {
+		return "out=" + o
+	}
+	o2, _ := c04Wait(out, c04StuckBound(), "stuck")
+	return "out=" + o + " then=" + o2
 }
 
 func c04SelRace(op []string, never chan struct{}) string {
@@ -325,7 +433,7 @@ func c04Method(n int) string {
 	return fmt.Sprintf("/svc/M%d", n)
 }
 
-func c04Dl(op []string) string {
+func c04Dl(op []string, in *c04Insts) string {
 	t0 := time.Now()
 	ctx, pd, cancel := c04Parent(op[2], t0)
 	defer cancel()
@@ -338,16 +446,9 @@ func c04Dl(op []string) string {
 	switch op[1] {
 	case "srv":
 		method := verifh.Atoi(op[4])
-		var mts []MethodTimeoutConf
-		eff := dflt
-		for _, m := range op[5:] {
-			p := strings.Split(m, ":")
-			mts = append(mts, MethodTimeoutConf{FullMethod: c04Method(verifh.Atoi(p[0])), Timeout: time.Duration(verifh.Atoi(p[1])) * time.Millisecond})
-		}
 		// the timeout the harness expects to be in force is NOT computed here: the class is relative to every
 		// configured value; the driver's model picks the one that applies.
-		_ = eff
-		ic := UnaryTimeoutInterceptor(dflt, mts...)
+		ic := in.srvIc(op[3], op[5:])
 		ic(ctx, "req", &grpc.UnaryServerInfo{FullMethod: c04Method(method)}, func(ctx context.Context, req any) (any, error) {
 			d, ok := ctx.Deadline()
 			ch <- seen{d, ok}
@@ -399,7 +500,7 @@ func c04Dl(op []string) string {
 				et = "other"
 			}
 		}
-		return "dl=" + c04ClassifyMulti(s.d, s.ok, op[2] != "none", pd, t0, t1, cands) + " err=" + et
+		return "dl=" + c04ClassifyMulti(s.d, s.ok, op[2] != "none", pd, t0, t1, cands) + " err=" + et + " fwd=ok"
 	}
 	return "bad-op"
 }
@@ -495,7 +596,7 @@ func c04Gen(r *verifh.Rng) []verifh.Section {
 		return ps
 	}
 	for _, dflt := range []int{-1000, 0, 2000, 60000} {
-		for _, mts := range []string{"", "1:120000", "1:120000 2:240000", "0:180000", "1:120000 1:300000", "2:240000 0:180000 1:-70000"} {
+		for _, mts := range []string{"", "1:120000", "1:120000 2:240000", "0:180000", "1:120000 1:300000", "1:300000 1:120000", "2:240000 0:180000 1:-70000"} {
 			for _, method := range []int{0, 1, 2, 3} {
 				eff := dflt
 				for _, p := range parents(eff) {
@@ -504,14 +605,90 @@ func c04Gen(r *verifh.Rng) []verifh.Section {
 			}
 		}
 	}
-	for _, dflt := range []int{-1000, 0, 2000, 60000} {
-		for _, opts := range []string{"", "o", "t:120000", "o t:120000", "t:120000 t:240000", "o o t:0 t:240000", "t:-5", "t:240000 o"} {
-			for _, p := range parents(dflt) {
-				ops = append(ops, strings.TrimSpace(fmt.Sprintf("dl cli %s %d %d %s", p, dflt, r.Pick(0, 1, 2), opts)))
+	secs = append(secs, verifh.Section{Cfg: "wrapper=sel mode=deadline inst=fresh", Ops: ops})
+
+	// sequences of calls through ONE interceptor per configuration: methods with their own (longer / shorter / <= 0)
+	// timeout, methods without, the empty method name, in random order, under every kind of caller deadline.
+	// All timeouts of one configuration are >= 20 s apart, so the class window@<ms> is unambiguous.
+	tables := []string{"1:120000", "1:120000 2:240000", "2:-70000 1:180000", "1:120000 1:300000", "2:300000 3:180000 2:120000", "0:180000 1:240000", "1:240000 2:120000 3:180000"}
+	nseq := verifh.Scale(4, 24)
+	for i := 0; i < nseq; i++ {
+		var ops []string
+		for c := 0; c < 2; c++ {
+			dflt := r.Pick(-1000, 0, 2000, 60000)
+			tbl := tables[r.Intn(len(tables))]
+			for j := 0; j < 12; j++ {
+				method := r.Intn(5)
+				ps := parents(dflt)
+				for _, f := range strings.Fields(tbl) {
+					if ms := verifh.Atoi(strings.Split(f, ":")[1]); ms > 20000 {
+						ps = append(ps, strconv.Itoa(ms-20000+r.Intn(1000)), strconv.Itoa(ms+20000+r.Intn(1000)))
+					}
+				}
+				ops = append(ops, fmt.Sprintf("dl srv %s %d %d %s", ps[r.Intn(len(ps))], dflt, method, tbl))
 			}
 		}
+		// interleave the two configurations' calls
+		for j := len(ops) - 1; j > 0; j-- {
+			k := r.Intn(j + 1)
+			ops[j], ops[k] = ops[k], ops[j]
+		}
+		secs = append(secs, verifh.Section{Cfg: "wrapper=sel mode=deadline inst=shared", Ops: ops})
 	}
-	secs = append(secs, verifh.Section{Cfg: "wrapper=sel mode=deadline", Ops: ops})
+
+	// the same with the wrapper's real timer: one method (or the default) has a 3 ms timeout, the others 1 h; a call
+	// of a 3 ms method must come back by itself while the work is blocked, a call of a 1 h method must not.
+	ttables := []struct {
+		dflt int
+		tbl  string
+	}{{3600000, "1:3"}, {3, "1:3600000"}, {3600000, "1:3 2:3600000"}, {3, "2:3600000 1:3"}, {3600000, "2:3 2:3600000 1:3"}}
+	short := func(dflt int, tbl string, method int) bool {
+		t := dflt
+		for _, f := range strings.Fields(tbl) {
+			p := strings.Split(f, ":")
+			if m := verifh.Atoi(p[0]); m != 0 && m == method {
+				t = verifh.Atoi(p[1])
+			}
+		}
+		return t <= 3
+	}
+	nt := verifh.Scale(3, 15)
+	for i := 0; i < nt; i++ {
+		tt := ttables[(i+r.Intn(2))%len(ttables)]
+		var ops []string
+		for j := 0; j < 14; j++ {
+			method := r.Intn(4)
+			work := c04GenWork(r)
+			if short(tt.dflt, tt.tbl, method) {
+				ops = append(ops, fmt.Sprintf("tsel %d %d timer before %s %s", tt.dflt, method, work, tt.tbl))
+				continue
+			}
+			kind := r.PickS("none", "deadline", "cancel", "cancel")
+			if kind == "none" && work == "never" {
+				work = "ret:3:0"
+			}
+			ops = append(ops, fmt.Sprintf("tsel %d %d %s %s %s %s", tt.dflt, method, kind, r.PickS("before", "after", "after"), work, tt.tbl))
+		}
+		secs = append(secs, verifh.Section{Cfg: "wrapper=sel mode=timer inst=shared", Ops: ops})
+	}
+
+	// fx.DoWithTimeout under real deadlines: timeout x parent contexts (0..3 WithContext options, the last one counts)
+	var fops []string
+	vals := []int{-5, 0, 3, 3600000}
+	for _, timeout := range vals {
+		for _, ps := range [][]string{{}, {"none"}, {"-5"}, {"3"}, {"3600000"}, {"3", "3600000"}, {"3600000", "3"}, {"3", "none"}, {"none", "-5"}, {"3600000", "3", "3600000"}, {"3600000", "none", "3"}} {
+			fire := timeout <= 3
+			if n := len(ps); n > 0 && ps[n-1] != "none" && verifh.Atoi(ps[n-1]) <= 3 {
+				fire = true
+			}
+			work := c04GenWork(r)
+			if !fire && work == "never" && r.Bool() {
+				work = "ret:0:2"
+			}
+			fops = append(fops, strings.TrimSpace(fmt.Sprintf("fxt %s %d %s %s", map[bool]string{true: "fire", false: "hold"}[fire], timeout, work, strings.Join(ps, " "))))
+		}
+	}
+	secs = append(secs, verifh.Section{Cfg: "wrapper=sel mode=fxdeadline", Ops: fops})
 	return secs
 }
 
@@ -520,6 +697,7 @@ func TestVerifC04Sel(t *testing.T) {
 	never := make(chan struct{})
 	defer close(never)
 	verifh.Run(t, secs, func(cfg verifh.Cfg) (func(op []string) string, func()) {
+		in := &c04Insts{shared: cfg.Str("inst", "fresh") == "shared", srv: map[string]grpc.UnaryServerInterceptor{}}
 		step := func(op []string) string {
 			switch op[0] {
 			case "sel":
@@ -527,7 +705,11 @@ func TestVerifC04Sel(t *testing.T) {
 			case "selrace":
 				return c04SelRace(op, never)
 			case "dl":
-				return c04Dl(op)
+				return c04Dl(op, in)
+			case "tsel":
+				return c04TSel(op, never, in)
+			case "fxt":
+				return c04Fxt(op, never)
 			}
 			return "bad-op"
 		}
